@@ -482,10 +482,12 @@ class LDMService:
         """
         # Look-up and removal form one atomic step: of two racing unsubscriptions only one succeeds
         with self._lock:
-            to_remove = set()
+            # A list, not a set: the same request subscribed twice with the same callback gives two
+            # equal entries, and both end with the unsubscription
+            to_remove = []
             for subscription in self.subscriptions:
                 if hash(subscription.subscription_request) == subscription_id:
-                    to_remove.add(subscription)
+                    to_remove.append(subscription)
             for subscription in to_remove:
                 self.remove_subscription(subscription)
             return bool(to_remove)
